@@ -172,6 +172,10 @@ impl Prop for C19 {
         c12::C12.case_kind(case)
     }
 
+    fn case_identity(&self, case: &Value) -> String {
+        case["src"].as_str().map(|s| s.to_string()).unwrap_or_else(|| case.to_string())
+    }
+
     fn enumerate(&self, tier: Tier, sink: &mut Sink) {
         for (name, src) in bases() {
             let toks = tokens::lex(&src);
@@ -200,9 +204,11 @@ impl Prop for C19 {
             }
         };
         o.evals = 1;
-        let before = o.classes.len();
+        if c12::has_reference_cycle(src) {
+            o.class("skipped-reference-cycle(C12)");
+            return o;
+        }
         judge(src, &mut o);
-        let _ = before;
         if o.classes.keys().any(|k| k == "parse-error" || k == "analysis-errors") {
             o.key(hash64(src));
         }
